@@ -19,13 +19,27 @@ def run(ctx):
     F = ctx.F
     dp, df = ctx.body('migration::deplace_column'), ctx.body('column::Column::drop_files')
     if dp and df:
-        a = set(n for s in dp.call_sites(*PRED) for n in call_names(dp.term(s)) if n in PRED)
-        b = set(n for s in df.call_sites(*PRED) for n in call_names(df.term(s)) if n in PRED)
-        ctx.ob('1a moved-kinds-equal-column-kinds', 'K9-agreement', dp.path, 'deplace_column consults the same file-kind predicates as Column::drop_files (all files of a column move together)',
+        def kinds(user):
+            ks = set()
+            for c in F.transitive_callees([user]):
+                cb = F.body(c)
+                if cb is None:
+                    continue
+                for bi2, sc in lib.str_consts(cb):
+                    if sc in ('index', 'table', 'refcount'):
+                        ks.add(sc)
+                for bi2, tk, raw in lib.fmt_templates(cb):
+                    if tk and tk[0][0] == 'lit' and tk[0][1] in ('index_', 'table_', 'refcount_'):
+                        ks.add(tk[0][1][:-1])
+            return ks
+        a, b = kinds(dp.path), kinds(df.path)
+        ctx.ob('1a moved-kinds-equal-column-kinds', 'K9-agreement', dp.path, 'deplace_column recognises the same file kinds as Column::drop_files (all files of a column move together)',
                a == b and len(b) == 3, 'deplace_column: %s; drop_files: %s' % (sorted(a), sorted(b)))
-        for s in dp.call_sites(*PRED):
-            sl = backward_slice(dp, [op_place(dp.term(s)['a'][0])]) if op_place(dp.term(s)['a'][0]) else None
-            ctx.ob('1b predicate-gets-own-column %s' % dp.term(s).get('r'), 'K4-provenance', dp.path, 'the predicate is applied with deplace_column\'s column argument', sl is not None and 1 in sl.params, '')
+        ps = [bi for bi, t in dp.calls() if bi in dp.normal_blocks() and t.get('rty') == 'bool' and any(n in F.bodies for n in call_names(t))]
+        for s in ps:
+            a0 = dp.term(s)['a'][0] if dp.term(s)['a'] else None
+            sl = backward_slice(dp, [op_place(a0)]) if a0 is not None and op_place(a0) else None
+            ctx.ob('1b predicate-gets-own-column %s' % dp.term(s).get('r'), 'K4-provenance', dp.path, 'the predicate is applied with deplace_column\'s column argument', sl is not None and 1 in sl.params and not sl.binops, '')
         ops = dp.call_sites('std::fs::copy', 'std::fs::rename')
         ctx.ob('1c copy-or-rename', 'anchor', dp.path, 'deplace_column copies or renames', len(ops) == 2, str(ops))
     mg = ctx.body('migration::migrate')
@@ -48,6 +62,9 @@ def run(ctx):
         so = mg.call_sites('db::Db::open')
         lm = mg.call_sites('options::Options::load_metadata')
         lib.precedes(ctx, '5c source-opened-normally', mg, lm, so, 'the source is opened with Db::open (lock, replay) using its stored metadata')
+        raw = mg.call_sites('migration::copy_column', 'migration::move_column', 'migration::deplace_column')
+        lib.precedes(ctx, '5e raw-file-copy-after-source-open', mg, so, raw,
+                     'column files are copied/moved only after the source was opened (Db::open replays and removes pending write-ahead logs; a raw copy made before would miss them)')
         it = [bi for bi, t in mg.calls() if call_matches(t, ['db::Db::iter_column_index_while'])]
         for s in it:
             lib.precedes(ctx, '5d iterate-after-open', mg, so, [s], 'the index walk runs on the opened source')
